@@ -401,7 +401,7 @@ def build_cases(tier):
     comp = [0, 4] if quick else list(range(10))
     # kitty: strip arithmetic / chunk boundaries end to end
     add(_prod(style=["kitty"], identity=["kitty"], method=["lines", "whole"], src=BOUNDARY + MIXED + [SMALL[2]], cell=cells,
-              size=sizes, compress=comp, alpha=["default", None] if quick else ALPHAS))
+              size=sizes, compress=comp, alpha=["default", None] if quick else ALPHAS, blend=[True, False]))
     # kitty: payload and keys
     add(_prod(style=["kitty"], identity=["kitty", "konsole"], method=["lines", "whole"], src=BOUNDARY + SMALL + GIFS,
               cell=[[2, 3], [8, 16]] if quick else cells + [None], size=few, compress=[0, 4], alpha=ALPHAS, z=Z,
